@@ -7,5 +7,6 @@ CONSTANTS
   RingSize = 10
   STRICT_REMOVE = FALSE
   WatchFile = TRUE
+  HELD = FALSE
 INVARIANT Emit
 CHECK_DEADLOCK FALSE
